@@ -27,6 +27,7 @@ Disks(P) == 1..Len(P.disks)
 Acts(P)  == 1..Len(P.acts)
 
 S0(P) == [ now   |-> Zero,
+           tk    |-> 0,                              \* floor(now * P.tps): date in whole ticks, for the profiles
            ast   |-> [a \in Acts(P) |-> "wait"],
            rem   |-> [a \in Acts(P) |-> P.acts[a].amount],
            got   |-> [a \in Acts(P) |-> Zero],
@@ -50,14 +51,14 @@ SetSum(F(_), S) == LET RECURSIVE Sm(_)
 SetMin(S) == RSetMin(S)
 
 \* ------------------------------------------------------------------ current resource values
-ProfOn(p, t) == ~HasProfile(p) \/ RPos(ValueAt(p, t))
-HostOn(P, s, h) == s.hon[h] /\ ProfOn(P.hosts[h].stprof, s.now)
-LinkOn(P, s, l) == s.lon[l] /\ ProfOn(P.links[l].stprof, s.now)
-Scale(P, s, h) == IF HasProfile(P.hosts[h].sprof) THEN ValueAt(P.hosts[h].sprof, s.now) ELSE One
+ProfOn(p, tk) == IF HasProfile(p) THEN RPos(ValueAtTk(p, tk)) ELSE TRUE
+HostOn(P, s, h) == IF s.hon[h] THEN ProfOn(P.hosts[h].stprof, s.tk) ELSE FALSE
+LinkOn(P, s, l) == IF s.lon[l] THEN ProfOn(P.links[l].stprof, s.tk) ELSE FALSE
+Scale(P, s, h) == IF HasProfile(P.hosts[h].sprof) THEN ValueAtTk(P.hosts[h].sprof, s.tk) ELSE One
 PeakSpeed(P, s, h) == P.hosts[h].speeds[s.pst[h]]
 Speed(P, s, h) == RMul(PeakSpeed(P, s, h), Scale(P, s, h))               \* per core
-Bw(P, s, l) == IF HasProfile(P.links[l].bwprof) THEN ValueAt(P.links[l].bwprof, s.now) ELSE P.links[l].bw
-Lat(P, s, l) == IF HasProfile(P.links[l].latprof) THEN ValueAt(P.links[l].latprof, s.now) ELSE P.links[l].lat
+Bw(P, s, l) == IF HasProfile(P.links[l].bwprof) THEN ValueAtTk(P.links[l].bwprof, s.tk) ELSE P.links[l].bw
+Lat(P, s, l) == IF HasProfile(P.links[l].latprof) THEN ValueAtTk(P.links[l].latprof, s.tk) ELSE P.links[l].lat
 RouteLat(P, s, a) == SetSum(LAMBDA i : Lat(P, s, P.acts[a].links[i]), 1..Len(P.acts[a].links))
 DiskCap(P, d, ch) == CASE ch = "r" -> P.disks[d].rbw [] ch = "w" -> P.disks[d].wbw
                        [] OTHER -> RMax(P.disks[d].rbw, P.disks[d].wbw)
@@ -133,11 +134,12 @@ Candidates(P, s, r) ==
   \cup { P.acts[a].start : a \in { x \in Acts(P) : s.ast[x] = "wait" } }
   \cup { s.ready[a] : a \in { x \in Acts(P) : s.ast[x] = "lat" } }
   \cup (IF s.evi <= Len(P.events) THEN { P.events[s.evi].t } ELSE {})
-  \cup { NextDate(p, s.now) : p \in { q \in Profiles(P) : HasNext(q, s.now) } }
+  \cup { DateOf(NextTick(p, s.tk), P.tps) : p \in { q \in Profiles(P) : NextTick(q, s.tk) >= 0 } }
   \cup { P.samples[i] : i \in { j \in 1..Len(P.samples) : RLt(s.now, P.samples[j]) } }
 \* profile changes and samples only matter while something is still to happen
-Pending(P, s) == \E a \in Acts(P) : s.ast[a] \in {"wait", "lat", "run", "susp"}
-Busy(P, s) == Pending(P, s) \/ s.evi <= Len(P.events) \/ \E i \in 1..Len(P.samples) : RLt(s.now, P.samples[i])
+\* (written with sets, not with \E: TLC expands an existential quantifier met in an action into one successor per witness)
+Pending(P, s) == { a \in Acts(P) : s.ast[a] \in {"wait", "lat", "run", "susp"} } # {}
+Busy(P, s) == Pending(P, s) \/ s.evi <= Len(P.events) \/ { i \in 1..Len(P.samples) : RLt(s.now, P.samples[i]) } # {}
 Terminal(P, s) == ~Busy(P, s)
 
 \* ------------------------------------------------------------------ powers
@@ -153,7 +155,7 @@ LinkWatts(P, s, r, l) == LinkPower(P.links[l].widle, P.links[l].wbusy, Usage(P, 
 \* ------------------------------------------------------------------ advance and settle
 Advance(P, s, r, T) ==
   LET d == RSub(T, s.now) IN
-  [s EXCEPT !.now = T,
+  [s EXCEPT !.now = T, !.tk = TickOf(T, P.tps),
             !.rem = [a \in Acts(P) |-> IF s.ast[a] = "run" THEN RSub(s.rem[a], RMul(r[a], d)) ELSE s.rem[a]],
             !.got = [a \in Acts(P) |-> IF s.ast[a] = "run" THEN RAdd(s.got[a], RMul(r[a], d)) ELSE s.got[a]],
             !.he  = [h \in Hosts(P) |-> Grow(s.he[h], HostWatts(P, s, r, h), d)],
@@ -200,7 +202,17 @@ Start(P, s) ==
             !.fin = [a \in Acts(P) |-> IF a \in due /\ ~ok(a) THEN s.now ELSE s.fin[a]]]
 
 \* end of the latency phase of a communication: it starts consuming bandwidth
-Wake(P, s) == [s EXCEPT !.ast = [a \in Acts(P) |-> IF s.ast[a] = "lat" /\ s.ready[a] = s.now THEN "run" ELSE s.ast[a]]]
+\* P.latwake = TRUE selects a *variant* in which any point of a latency profile of a link of the route, falling inside the
+\* latency phase, ends that phase at once.  NOT the property; it characterises the known deviation of
+\* NetworkCm02Link::set_latency (KNOWN_FINDINGS C22:latency-event:...).
+LatEventNow(P, s, l) ==
+  LET p == P.links[l].latprof IN
+  IF ~HasProfile(p) \/ s.now # DateOf(s.tk, P.tps) THEN FALSE
+  ELSE { i \in 1..Len(p.pts) : \/ p.pts[i].k = Local(p, s.tk)
+                                \/ (Periodic(p) /\ IterOf(p, s.tk) >= 1 /\ Local(p, s.tk) = 0 /\ p.pts[i].k = p.period) } # {}
+EarlyWake(P, s, a) == IF P.latwake THEN { i \in 1..Len(P.acts[a].links) : LatEventNow(P, s, P.acts[a].links[i]) } # {} ELSE FALSE
+Wake(P, s) == [s EXCEPT !.ast = [a \in Acts(P) |-> IF s.ast[a] = "lat" /\ (s.ready[a] = s.now \/ EarlyWake(P, s, a))
+                                                   THEN "run" ELSE s.ast[a]]]
 
 Settle(P, s) ==
   B1(LAMBDA s1 : B1(LAMBDA s2 : B1(LAMBDA s3 : B1(LAMBDA s4 : Start(P, s4), ApplyDue(P, s3)), FailOff(P, s2)), Wake(P, s1)),
@@ -214,7 +226,7 @@ Begin(P) == Settle(P, S0(P))
 PreR(P, s, r) == B1(LAMBDA T : Advance(P, s, r, T), SetMin(Candidates(P, s, r)))
 Pre(P, s) == B1(LAMBDA r : PreR(P, s, r), Rates(P, s))
 Step(P, s) == B1(LAMBDA x : Settle(P, x), Pre(P, s))
-CanStepR(P, s, r) == Busy(P, s) /\ Candidates(P, s, r) # {}
+CanStepR(P, s, r) == IF Busy(P, s) THEN Candidates(P, s, r) # {} ELSE FALSE   \* (IF: no action-level disjunction)
 CanStep(P, s) == CanStepR(P, s, Rates(P, s))
 
 \* ------------------------------------------------------------------ properties of the timeline (checked by TLC on the spec)
